@@ -38,8 +38,10 @@ package packet
 //@   requires [enc] e.writer != nil && pkt != nil
 //@   ensures [exact-bytes] err == nil ==> wire == old(wire) + plen(pkt)
 //@   ensures [nothing-on-error] err != nil ==> wire == old(wire)
-//@   modifies wire, ngrow, bufcap, buflen, elemsof(byte)
+//@   modifies wire, ngrow, bufcap, buflen, elemsof(byte), pooled
 //@   at call 1 Encode assert [buffer-is-len] len(buf) == plen(pkt)
+//@   at call 1 Write assert [buffer-owned] !pooled[buffer]
+//@   at call 1 WriteAndFlush assert [buffer-owned-sync] !pooled[buffer]
 //@ func (e *Encoder) Flush() (err error)
 //@   requires [enc] e.writer != nil
 //@   ensures nflush == old(nflush) + 1
@@ -52,11 +54,11 @@ package packet
 //@   requires [dec] d.reader != nil
 //@   ensures [never-both] (err == nil ==> pkt != nil && typecode(pkt) != 0) && (err != nil ==> pkt == nil)
 //@   ensures [one-packet] nreadfull <= old(nreadfull) + 1
-//@   modifies elemsof(byte), ngrow, nreadfull, bufcap, buflen
+//@   modifies elemsof(byte), ngrow, nreadfull, bufcap, buflen, pooled
 //@   loop 1 invariant [detect] 2 <= detectionLength && detectionLength <= 6 && ngrow == old(ngrow) && nreadfull == old(nreadfull) && d.reader != nil
 //@   at call 1 Grow assert [limit-checked] (limit <= 0 || packetLength <= limit) && packetLength > 0
 //@   at call 1 ReadFull assert [whole-packet] len(buf) == packetLength
-//@   at call 1 Decode assert [whole-buffer] len(buf) == packetLength && nreadfull == old(nreadfull) + 1
+//@   at call 1 Decode assert [whole-buffer] len(buf) == packetLength && nreadfull == old(nreadfull) + 1 && !pooled[buffer]
 //
 //@ func (d *Decoder) SetReadLimit(limit int64)
 //@   ensures d.limit == limit
